@@ -192,9 +192,6 @@ func (t *TicketAttempt) Decode(d *Decoder) error {
 	}
 	cLog(Yellow, "TicketAttempt: %v", val)
 
-	if val > math.MaxUint8 {
-		return fmt.Errorf("TicketAttempt value %d out of range", val)
-	}
 	*t = TicketAttempt(val)
 	return nil
 }
